@@ -9,11 +9,15 @@ from .ops import b_not
 
 
 class Loop:
-    def __init__(self, invariants, modifies=(), index="k", defs=None):
+    def __init__(self, invariants, modifies=(), index="k", defs=None, head_assumptions=None):
         self.invariants = list(invariants.items()) if isinstance(invariants, dict) else list(invariants)
         # definitional axioms of ghost functions (e.g. a sum defined by recursion over the iterated sequence):
         # assumed at the loop head, never checked -- only conservative definitions may go here
         self.defs = list((defs or {}).items())
+        # facts ASSUMED about the arbitrary iteration state (after the havoc), e.g. an assumed contract of a library object that the
+        # iteration picks, or definitions of ghost functions that belong to the object of this iteration.  Never checked: every entry
+        # is reported as an assumption.
+        self.head_assumptions = list((head_assumptions or {}).items())
         self.modifies = list(modifies)
         self.index = index
 
